@@ -64,6 +64,7 @@ impl TraitGenerics {
             params: &self.params,
             impl_t: None,
             takes_self_by_value: TakesSelfByValue(false),
+            of_impl: false,
         }
     }
 
@@ -85,6 +86,7 @@ impl TraitGenerics {
                 TraitDependencyMode::Concrete(_) => None,
             },
             takes_self_by_value,
+            of_impl: true,
         }
     }
 
@@ -97,6 +99,7 @@ impl TraitGenerics {
             params: &self.params,
             impl_t: Some(&idents.impl_t),
             takes_self_by_value,
+            of_impl: true,
         }
     }
 
@@ -159,6 +162,8 @@ pub struct ParamsGenerator<'g> {
     params: &'g syn::punctuated::Punctuated<syn::GenericParam, syn::token::Comma>,
     impl_t: Option<&'g syn::Ident>,
     takes_self_by_value: TakesSelfByValue,
+    /// `impl<..>` (as opposed to `trait Trait<..>`): defaults are not allowed there
+    of_impl: bool,
 }
 
 impl quote::ToTokens for ParamsGenerator<'_> {
@@ -208,8 +213,21 @@ impl quote::ToTokens for ParamsGenerator<'_> {
         }
 
         for param in self.params {
-            if !matches!(param, syn::GenericParam::Lifetime(_)) {
-                punctuator.push(param);
+            match param {
+                syn::GenericParam::Lifetime(_) => {}
+                syn::GenericParam::Type(type_param) if self.of_impl && type_param.default.is_some() => {
+                    let mut type_param = type_param.clone();
+                    type_param.eq_token = None;
+                    type_param.default = None;
+                    punctuator.push(type_param);
+                }
+                syn::GenericParam::Const(const_param) if self.of_impl && const_param.default.is_some() => {
+                    let mut const_param = const_param.clone();
+                    const_param.eq_token = None;
+                    const_param.default = None;
+                    punctuator.push(const_param);
+                }
+                param => punctuator.push(param),
             }
         }
     }
